@@ -12,7 +12,8 @@ import (
 // C17Case: a boolean case plus a spelling transform.
 type C17Case struct {
 	C01Case
-	Transform string `json:"transform"` // permute | rotate | repeat | reverse | swap | symmetry
+	Call      *APICall `json:"call,omitempty"` // transform "apicall": any API call, executed twice
+	Transform string   `json:"transform"`      // permute | rotate | repeat | reverse | swap | symmetry | apicall
 	Seed      uint64 `json:"seed"`      // parameter stream of the transform (pure function of it)
 	Sym       int    `json:"sym"`       // 0..7 for symmetry
 }
@@ -155,6 +156,19 @@ func applyTransform(c *C17Case) (subj, clip Paths, fr c2.FillRule, T func(P) P, 
 }
 
 func judgeC17(c *C17Case, cx *Ctx) *Violation {
+	if c.Transform == "apicall" {
+		// calling any operation twice with equal inputs yields identical outputs
+		first := *c.Call
+		second := *c.Call
+		second.A, second.B = cloneKeepNil(c.Call.A), cloneKeepNil(c.Call.B)
+		r1 := first.Run()
+		r2 := second.Run()
+		if r1.Fingerprint != r2.Fingerprint || (r1.Panic == nil) != (r2.Panic == nil) || r1.ExecFalse != r2.ExecFalse {
+			return violf("%s returned different results for two calls with equal inputs: %.400s ... vs %.400s ...", c.Call.Fn, r1.Fingerprint, r2.Fingerprint)
+		}
+		cx.St.Eval(c, countVerts(c.Call.A)+countVerts(c.Call.B) >= 3, "transform:apicall", "fn:"+c.Call.Fn)
+		return nil
+	}
 	sol, evs := runBoolean(0, c.CT, c.FR, c.Subj, c.Clip)
 	// determinism: the same call again, on copies of the inputs
 	again := c2.BooleanOpPaths64(c.CT, kit.ClonePaths(c.Subj), kit.ClonePaths(c.Clip), c.FR)
@@ -246,9 +260,12 @@ func hasTie(all Paths) bool {
 
 func init() {
 	defProp("C17",
-		"C01's generator plus one spelling transform drawn by rapid: permutation of the paths of each set, start rotation of every path, repeated vertices / explicit closing vertex, reversal of one path (EvenOdd) or of all paths (NonZero; Positive<->Negative), exchange of subject and clip (Union, Intersection, Xor), one of the 8 symmetries of the square lattice (reflections exchange Positive and Negative because they negate winding numbers); oracle: identical calls return identical output, and wind(result', T(q)) != 0 <=> wind(result, q) != 0 at probes farther than 2.001 from all input edges; non-trivial = probes inside and outside and the input contains a tie (horizontal edge, equal Y of two vertices, crossing or coincidence)",
+		"C01's generator plus one spelling transform drawn by rapid (one case in five is instead a call of the C03 API grammar executed twice on equal inputs, whose %v-printed results must be identical): permutation of the paths of each set, start rotation of every path, repeated vertices / explicit closing vertex, reversal of one path (EvenOdd) or of all paths (NonZero; Positive<->Negative), exchange of subject and clip (Union, Intersection, Xor), one of the 8 symmetries of the square lattice (reflections exchange Positive and Negative because they negate winding numbers); oracle: identical calls return identical output, and wind(result', T(q)) != 0 <=> wind(result, q) != 0 at probes farther than 2.001 from all input edges; non-trivial = probes inside and outside and the input contains a tie (horizontal edge, equal Y of two vertices, crossing or coincidence)",
 		[]string{"events of both executions are pooled for call-site attribution"},
 		func(t *rapid.T) *C17Case {
+			if rapid.IntRange(0, 4).Draw(t, "apicall") == 0 {
+				return &C17Case{Transform: "apicall", Call: drawAPICall(t)}
+			}
 			c := &C17Case{C01Case: *drawBoolCase(t, drawFamily(t))}
 			c.Entry = 0
 			c.Transform = rapid.SampledFrom([]string{"permute", "rotate", "repeat", "reverse", "swap", "symmetry"}).Draw(t, "transform")
